@@ -57,10 +57,12 @@ theorem read_raw_seek_failure_contained (o : Oracle) (h : H) (hist : Hist) (n : 
   obtain ⟨a, b, _, _, _⟩ := Sf.C15.defaultSeek_keeps o { h with error := 0 } hist h.rpos
   exact ⟨rfl, a, b⟩
 
-/-- the rule of the seeded regression: the failed re-seek only latches an error, the transfer goes ahead -/
+/-- the rule of the seeded regression: the failed re-seek only latches an error, the transfer goes ahead — on the I/O layer as it was
+    before 9667294 (`fwriteOld`: since that repair psf_fwrite itself transfers nothing after a failed seek, so the same edit is contained
+    one level further down) -/
 def writeRawAnyway (o : Oracle) (h : H) (hist : Hist) (len : Nat) (data : List Byte) : Res :=
   let sk := Faults.defaultSeek o h hist h.wpos
-  let fw := fwrite o sk.2.2 1 len (data.take len)
+  let fw := fwriteOld o sk.2.2 1 len (data.take len)
   ⟨{ sk.2.1 with wpos := sk.2.1.wpos + (fw.1 : Int) / (blockwidth1 sk.2.1 : Nat), lastOp := .w }, fw.2, { ret := fw.1, err := sk.2.1.error }⟩
 
 /-- a 16-bit stereo RAW handle in SFM_RDWR whose last call was a read; an I/O layer whose seeks fail and whose writes succeed -/
